@@ -387,11 +387,13 @@ func (p *parser) infix(node Node, prec int) (Node, error) {
 					return nil, err
 				}
 
-				if right != nil {
-					node = &ProjectArrayNode{
-						Left:  node,
-						Right: right,
-					}
+				if right == nil {
+					right = CurrentNode{}
+				}
+
+				node = &ProjectArrayNode{
+					Left:  node,
+					Right: right,
 				}
 			}
 		case lexer.OrToken:
@@ -1794,11 +1796,13 @@ func (p *parser) primaryExpression() (Node, error) {
 					return nil, err
 				}
 
-				if right != nil {
-					node = &ProjectArrayNode{
-						Left:  node,
-						Right: right,
-					}
+				if right == nil {
+					right = CurrentNode{}
+				}
+
+				node = &ProjectArrayNode{
+					Left:  node,
+					Right: right,
 				}
 			}
 		} else {
